@@ -47,7 +47,7 @@ Definition src2_validate_before (now : pyval) (to_secs : pyval -> pyval) (v_not_
    | BErr => PErr
    end).
 
-(* saml2/time_util.py:later_than, lines 301-317 *)
+(* saml2/time_util.py:later_than, lines 304-320 *)
 Definition src2_later_than (parse : pyval -> pyval) (gmtime : pyval -> pyval) (v_after : pyval) (v_before : pyval) : pyval :=
   (let k_14 := fun v_after =>
     (let k_9 := fun v_before =>
@@ -300,7 +300,7 @@ Definition src2_bearer_confirmed (now : pyval) (to_secs : pyval -> pyval) (parse
    | BErr => PErr
    end).
 
-(* saml2/response.py:AuthnResponse.session_info, lines 1103-1133 *)
+(* saml2/response.py:AuthnResponse.session_info, lines 1110-1140 *)
 Definition src2_session_info (issuer : pyval -> pyval) (authz_decision_info : pyval -> pyval) (authn_info : pyval -> pyval) (v_self : pyval) : pyval :=
   let v_nooa := PErr in
   let v_authn_statement := PErr in
